@@ -631,6 +631,11 @@ Next:
           }
         }
       }
+      else {
+        // The operand count matches neither all operands nor the explicit operands of this signature. Without this
+        // `j` stays zero and a request without operands would "match" every signature.
+        continue;
+      }
 
       if (j == op_count) {
         if (!local_imm_out_of_range) {
